@@ -7,7 +7,9 @@ TETRA_V = [[0.2, 0.1, 0.0], [1.7, 0.3, 0.1], [0.4, 1.5, 0.2], [0.6, 0.5, 1.3]]
 TETRA_F = [[0, 2, 1], [0, 1, 3], [1, 2, 3], [0, 3, 2]]                 # outward wound
 BOX_V = [[x, y, z] for x in (0.5, 2.0) for y in (-0.5, 0.5) for z in (0.25, 1.0)]
 BOX_F = [[0, 1, 3], [0, 3, 2], [4, 6, 7], [4, 7, 5], [0, 4, 5], [0, 5, 1], [2, 3, 7], [2, 7, 6], [0, 2, 6], [0, 6, 4], [1, 5, 7], [1, 7, 3]]
-SHAPES = {"tetra": (TETRA_V, TETRA_F), "box": (BOX_V, BOX_F)}
+# a tall column: the three bounding-box extents differ, and the y-range is a sub-range of the z-range
+TALL_V = [[x, y, z] for x in (0.0, 1.0) for y in (0.0, 0.8) for z in (0.0, 3.0)]
+SHAPES = {"tetra": (TETRA_V, TETRA_F), "box": (BOX_V, BOX_F), "tall": (TALL_V, BOX_F)}
 
 
 def _tri(v, f):
